@@ -657,7 +657,7 @@ def run_scenario(ck, hbin, hchk, sc, ops, tag, seedtag):
                     issues.append(dict(kind="regress", fid="F55", routine="pshort", clause="indices_in_range" if mo == "idx-error" else "finite" if " nan" in mo else "lockstep",
                                        cls="snap test misses an exact hit (behaviour of the code before fix b725c3169)",
                                        detail="partialShortcutPath behaves like the code before fix F55 (snap-to-vertex test `<`): " +
-                                              ("a sample at the end of the path reads dists[pos+1] / states[pos+1] out of range" if mo == "idx-error"
+                                              ("the implementation differs from the model of the current code on an input where the pre-fix code reads dists[pos+1] / states[pos+1] out of range (a sample at the end of the path)" if mo == "idx-error"
                                                else "a sample exactly on a vertex is not snapped" + (" (t = 0/0: NaN state in the path)" if " nan" in mo else "")),
                                        script=hdr + [line], observed=[o], model=[m]))
                 else:
